@@ -5,11 +5,11 @@
 # which ./check hands to the driver as C19_VARIANT_BINS. Progress goes to stderr. Exit 2 = machinery error.
 #
 #   quick:    default (release, no `parallel`), seed1, seed2 (CONST_RANDOM_SEED=<k> at build time),
-#             par (--features par; the driver runs it with RAYON_NUM_THREADS in {1,4}), avx2chk, avx512chk
+#             par (--features par; the driver runs it with RAYON_NUM_THREADS in {1,3,4}), avx2chk, avx512chk
 #   thorough: + seed3..seed6, avx2, avx512 (RUSTFLAGS -C target-feature=...), checked (profile `checked`),
 #             avx2chk, avx512chk (both; these are the very builds ./check makes for C13-C15, same target
 #             directories <T>-avx2 / <T>-avx512, so they are normally up to date),
-#             par is run with RAYON_NUM_THREADS in {1,2,3,4,8,16}
+#             par is run with RAYON_NUM_THREADS in {1,...,8,16}
 #
 # Target directories are derived from ${CARGO_TARGET_DIR:-target} (relative to the harness directory, which is
 # $VERIF_HARNESS_DIR or <here>/../harness, exactly as ./check resolves them) with a suffix:
